@@ -15,7 +15,7 @@ ID = "C14"
 LEVEL = "exploration"
 TECHNIQUE = "bounded-exhaustive operation sequences + random histories (Hypothesis) vs dict reference registry"
 RULE = ("cases = sequences of create_agent(A|B), create_agents, delete_agent(first|middle|last|absent), delete_agents, "
-        "configure_agents, reset, state change; all sequences up to the length bound are enumerated, random histories up to "
+        "configure_agents (full, partial, duplicate type, empty), reset, state change, a factory whose initialize raises, an agent that creates agents while being initialised; all sequences up to the length bound are enumerated, random histories up to "
         "length 60 beyond; after every operation ids/lookup/per-type lists/counts/per-state counts/next_agent/random_agents are "
         "compared with a dict reference. non-trivial = a query is made after a deletion that left some live agent with "
         "id != position in the agent list; distinct by operation sequence")
